@@ -157,11 +157,11 @@ def check_C09(tier, nproc=None):
 
 def check_C10(tier, nproc=None):
     c = Check('C10', tier)
-    N = 5 if tier == 'quick' else 7
+    N = 5 if tier == 'quick' else 6
     NS = 6 if tier == 'quick' else 8
     for n in range(0, N + 1):
         for obj in (False, True):
-            for m in ([0, 4] if tier == 'quick' else [0, 1, 2, 4]):
+            for m in ([0, 4] if tier == 'quick' else [0, 2, 4]):
                 c.add(Job('vH_C10_handler', [('bytes', 'd', n), ('bool', obj), ('int', m)], weight=4 ** n))
     for n in range(0, NS + 1):
         for m in ([0, 4] if tier == 'quick' else [0, 1, 2, 3, 4]):
@@ -619,4 +619,43 @@ def check_C18(tier, nproc=None):
     _std(c, ['Go memory model: data-race-free programs are sequentially consistent (cited, not checked)',
              'sync.Pool is goroutine-safe and per ValueReader', 'the race battery only confirms a reported breach; it never decides'])
     c.outside = ['schedules / interleavings (not explored)', 'synchronised global state (would be reported only if the race battery confirms)']
+    return c.finish()
+
+
+def check_C20(tier, nproc=None):
+    c = Check('C20', tier)
+    o = {'cost_mode': True, 'float_contract': True, 'no_float_overflow': True}
+    PAD = b' ' * (1 << 16)
+    LONG = b'a' * 16000
+    c.describe_job = True
+    shapes = [
+        # (small, big, entry points, padded with 1 MiB of trailing bytes?)
+        (b'[{}]', b'[{},{}]', [0, 2], False), (b'{"a":{}}', b'{"a":{},"b":{}}', [0, 1], False), (b'[[]]', b'[[],[]]', [0, 2], False),
+        (b'[{"a":1}]', b'[{"a":1},{"a":1}]', [0, 2], False), (b'[1]', b'[1,1]', [0, 2], False), (b'{"a":1}', b'{"a":1,"b":1}', [0, 1], False),
+        (b'[[1,2,3]]', b'[[1,2,3],[]]', [0, 2], False), (b'[{"a":1,"b":2}]', b'[{"a":1,"b":2},{}]', [0, 2], False),
+        (b'["\\n"]', b'["\\n","\\n"]', [0, 2], True), (b'[["\\n"]]', b'[["\\n"],["\\n"]]', [0, 2], True),
+        (b'["\\n"]', b'["\\n",["\\n"]]', [0, 2], True), (b'{"a":"\\n"}', b'{"a":"\\n","b":{"a":"\\n"}}', [0, 1], True),
+        (b'[{"\\n":1}]', b'[{"\\n":1},{"\\n":1}]', [0], True),
+        (b'"' + LONG + b'\\u00e9' * 250 + b'"', b'"' + LONG + b'\\u00e9' * 251 + b'"', [3, 0], False),
+        (b'"' + LONG + b'\\n"', b'"' + LONG + b'\\n\\n"', [3], False),
+        (b'[1]', b'[1,[1]]', [4, 5, 6], True), (b'[[1]]', b'[[1],[1]]', [4, 5, 6], True),
+    ]
+    if tier != 'quick':
+        shapes += [(b'[[{}]]', b'[[{}],[{}]]', [0, 2], False), (b'{"a":[{}]}', b'{"a":[{}],"b":[{}]}', [0, 1], False),
+                   (b'[{"a":{}}]', b'[{"a":{}},{"a":{}}]', [0], False), (b'["\\n",["\\n"]]', b'["\\n",["\\n",["\\n"]]]', [0], True),
+                   (b'[["\\u00e9"]]', b'[["\\u00e9"],["\\u00e9"],["\\u00e9"]]', [0], True)]
+    for small, big, whichs, padded in shapes:
+        pad = PAD if padded else b''
+        for which in whichs:
+            lab = 'vH_C20(%s -> %s%s, entry %d)' % (small[:24].decode('latin1'), big[:40].decode('latin1'), ' +64KiB' if padded else '', which)
+            c.add(Job('vH_C20', [('cbytes', small + pad), ('cbytes', big + pad), ('int', which)], label=lab, weight=len(big) + len(pad), opts=o))
+    c.bounds = {'shapes': len(shapes), 'hints': 'six size hints (reader and one pooled child) free in [0, 2^20]', 'constants': 'A = 1536 bytes per added input byte, B = 4096',
+                'cost_model': 'make([]T, n): n*sizeof(T); make(map, n): 48n+48; append beyond capacity: 2*needed*sizeof(T); []byte->string: len; new(T): sizeof(T)'}
+    c.must_reach = ['C20.marginal']
+    _std(c, ['allocation sizes follow the cost model above (runtime size classes and map bucket layout are not modelled)',
+             'any non-negative size hints are reachable (decode a container of that size first); the native replay sets the fields directly',
+             'marginal cost of one more member / nesting level / escape bounded by A*added bytes + B is a sufficient condition for linear total cost on these shape families'])
+    c.outside = ['document shapes outside the listed families', 'amortised growth of the nesting stack (append doubling)', 'GC behaviour, allocator size classes']
+    c.run_jobs(nproc)
+    c.confirm()
     return c.finish()
